@@ -49,9 +49,13 @@ class Ctx:
         self.seed = seed
         self.t0 = time.time()
         base = "/dev/shm" if os.path.isdir("/dev/shm") and os.access("/dev/shm", os.W_OK) else None
-        self.scratch = tempfile.mkdtemp(prefix="vf_%s_" % pid.lower(), dir=base)
-        # scratch paths must be inert for gogreement's own path filters
-        assert "testdata" not in self.scratch and "_test" not in self.scratch
+        # scratch paths must be inert for gogreement's own path filters (exclude-paths is a substring match
+        # on absolute file names) and for the tokens the checks use as exclude-paths values
+        while True:
+            self.scratch = tempfile.mkdtemp(prefix="vf%s" % pid.lower(), dir=base)
+            if not any(t in self.scratch for t in ("testdata", "_test", "zzgen", "nomatch", "gen", "vendor")):
+                break
+            shutil.rmtree(self.scratch, ignore_errors=True)
         self.specdir = os.path.join(self.scratch, "spec")
         shutil.copytree(SPEC, self.specdir)
         self.tlc_runs = []
